@@ -531,7 +531,7 @@ pub fn case() -> BoxedStrategy<Case> {
     prop_oneof![
         3 => (chunk_u32(), prop_oneof![0u32..2000, 2000u32..200_000]).prop_map(|(size, len)| Case::SerChunk { size, len }),
         3 => (prop_oneof![3 => chunk_u32().prop_map(|x| x as u64), 1 => gen::pick(&[1u64 << 32, (1u64 << 32) + 1, u64::MAX, 1u64 << 63])], prop_oneof![0u32..2000, 2000u32..100_000]).prop_map(|(size, len)| Case::DeChunk { size, len }),
-        2 => (prop_oneof![2 => gen::pick(&[16_777_214u32, 16_777_215, 16_777_216, 16_777_217, 20_000_000]), 1 => 16_000_000u32..17_500_000], gen::pick(&[128u32, 4096, 65_536, 0x7FFF_FFFF, 16_777_215, 16_777_216])).prop_map(|(len, chunk)| Case::Payload { len, chunk }),
+        2 => (prop_oneof![2 => gen::pick(&[16_777_214u32, 16_777_215, 16_777_216, 16_777_217, 20_000_000]), 1 => 16_000_000u32..17_500_000], gen::pick(&[128u32, 4096, 65_536, 0x7FFF_FFFF, 16_777_215, 16_777_216, 128, 4096, 65_536, 0x7FFF_FFFF, 1, 2])).prop_map(|(len, chunk)| Case::Payload { len, chunk }),
         3 => (prop_oneof![3 => gen::pick(&[0u32, 1, 65_534, 65_535, 65_536, 65_537, 131_071, 131_072, 200_000]), 1 => 65_000u32..66_000], any::<bool>(), any::<bool>()).prop_map(|(len, as_name, multibyte)| Case::AmfString { len, as_name, multibyte }),
         4 => (chunk_u32(), gen::edge_u32(), gen::edge_u32(), str_len(), any::<bool>(), prop_oneof![0u32..3000, gen::pick(&[65_536u32, 70_000])]).prop_map(|(chunk, window, bandwidth, version_len, bwdone, media_len)| Case::Server { chunk, window, bandwidth, version_len, bwdone, media_len }),
         4 => (chunk_u32(), gen::edge_u32(), gen::edge_u32(), str_len(), proptest::option::weighted(0.5, str_len()), prop_oneof![4 => 1u32..20, 1 => gen::pick(&[65_535u32, 65_536])], 1u32..20, prop_oneof![0u32..3000, gen::pick(&[65_536u32, 70_000])]).prop_map(|(chunk, window, buffer, version_len, tc_url_len, app_len, key_len, media_len)| Case::Client { chunk, window, buffer, version_len, tc_url_len, app_len, key_len, media_len }),
@@ -549,6 +549,8 @@ fn fixed(_ctx: &Ctx) -> Vec<Case> {
     }
     for len in [16_777_214u32, 16_777_215, 16_777_216] {
         v.push(Case::Payload { len, chunk: 65_536 });
+        // the largest payload at the smallest chunk size: 16.7 million chunks (work must stay linear)
+        v.push(Case::Payload { len, chunk: 1 });
     }
     for len in [65_535u32, 65_536] {
         for as_name in [false, true] {
